@@ -106,11 +106,15 @@ class Obs:
                         raise ValueError("Unsorted idx for idl[%s]: range with negative step" % (name))
                     self.idl[name] = idx
                 elif isinstance(idx, (list, np.ndarray)):
-                    dc = np.unique(np.diff(idx))
+                    steps = np.diff(idx)
+                    if steps.dtype.kind in 'iu' and steps.dtype != np.int64:
+                        idx = np.asarray(idx, dtype=np.int64)  # differences of unsigned or narrow integers wrap around
+                        steps = np.diff(idx)
+                    dc = np.unique(steps)
                     if np.any(dc < 0):
-                        raise ValueError("Unsorted idx for idl[%s] at position %s" % (name, ' '.join(['%s' % (pos + 1) for pos in np.where(np.diff(idx) < 0)[0]])))
+                        raise ValueError("Unsorted idx for idl[%s] at position %s" % (name, ' '.join(['%s' % (pos + 1) for pos in np.where(steps < 0)[0]])))
                     elif np.any(dc == 0):
-                        raise ValueError("Duplicate entries in idx for idl[%s] at position %s" % (name, ' '.join(['%s' % (pos + 1) for pos in np.where(np.diff(idx) == 0)[0]])))
+                        raise ValueError("Duplicate entries in idx for idl[%s] at position %s" % (name, ' '.join(['%s' % (pos + 1) for pos in np.where(steps == 0)[0]])))
                     if len(dc) == 1:
                         self.idl[name] = range(idx[0], idx[-1] + dc[0], dc[0])
                     else:
